@@ -236,3 +236,47 @@ Example C02_word_object_examples :
   /\ word_object false true (T "ab cd") 4 = RChar 2 5
   /\ word_object false false (T "ab  cd") 2 = RChar 2 4.
 Proof. vm_compute. repeat split. Qed.
+
+(** (15) Operators over the line motions j k G gg (with counts): the motion either fails without moving, or covers whole
+    lines with the cursor's line among them, as the first or the last of them. *)
+Theorem C02_line_motion_covers_cursor :
+  forall (t : text) (m : vmotion) (count : option nat) (i : nat), (i <= length t)%nat ->
+    match v_range t m count i with
+    | RFail p => p = i
+    | RLines a b _ => (a <= i <= b)%nat /\ (a = i \/ b = i)
+    | _ => False
+    end.
+Proof. exact line_motion_covers_cursor. Qed.
+Print Assumptions C02_line_motion_covers_cursor.
+
+(** (16) d over such a motion removes those lines, with one line break, and nothing else; the register holds them as
+    lines. *)
+Theorem C02_delete_line_motion_locality :
+  forall (ins t : text) (m : vmotion) (count : option nat) (i a b : nat) (kc : bool),
+    v_range t m count i = RLines a b kc ->
+    let '(x, y) := lines_span t a b in
+    o_text (run_op_v OpDelete ins t m count i) = firstn x t ++ skipn y t /\
+    o_reg (run_op_v OpDelete ins t m count i)
+    = Some (true, slice t (line_start_from t (Nat.min a (length t))) (line_end t (Nat.min b (length t))) ++ [nl]).
+Proof. exact delete_line_motion_locality. Qed.
+Print Assumptions C02_delete_line_motion_locality.
+
+(** (17) A failing line motion (j on the last line, k on the first) leaves text, cursor and register alone, whatever the
+    operator. *)
+Theorem C02_line_motion_fail_is_noop :
+  forall (k : opk) (ins t : text) (m : vmotion) (count : option nat) (i p : nat),
+    v_range t m count i = RFail p ->
+    o_text (run_op_v k ins t m count i) = t /\ o_cur (run_op_v k ins t m count i) = i /\ o_reg (run_op_v k ins t m count i) = None.
+Proof. exact line_motion_fail_is_noop. Qed.
+Print Assumptions C02_line_motion_fail_is_noop.
+
+(** dj takes two lines, d2k three, dG to the end, dgg to the start; dj on the last line does nothing *)
+Example C02_line_motion_examples :
+  let t := T "a" ++ [10] ++ T "b" ++ [10] ++ T "c" ++ [10] ++ T "d" in
+  o_text (run_op_v OpDelete [] t VDown None 2) = T "a" ++ [10] ++ T "d"
+  /\ o_text (run_op_v OpDelete [] t VUp (Some 2%nat) 4) = T "d"
+  /\ o_text (run_op_v OpDelete [] t VGoto None 2) = T "a"
+  /\ o_text (run_op_v OpDelete [] t VFirst None 2) = T "c" ++ [10] ++ T "d"
+  /\ o_text (run_op_v OpDelete [] t VDown None 6) = t
+  /\ o_reg (run_op_v OpYank [] t VGoto (Some 2%nat) 0) = Some (true, T "a" ++ [10] ++ T "b" ++ [10]).
+Proof. vm_compute. repeat split. Qed.
